@@ -1,7 +1,9 @@
 package cache
 
 import (
+	"context"
 	"reservoir/metrics"
+	"reservoir/utils/duration"
 	"reservoir/utils/bytesize"
 	"sync"
 	"time"
@@ -251,4 +253,29 @@ func HarnessLimitChange() {
 	vAssert(c.byteSize.Get() <= 24<<20, "c13.limit-change-not-followed-by-cleanup-cycle")
 	_, old := c.entries[vKeys[0]]
 	vAssert(!old, "c13.evict.kept-a-higher-priority-entry")
+}
+
+// HarnessIntervalChange: the real janitor goroutine (ticker loop) receives an interval
+// change delivered by the config listener: the ticker follows the new interval.  A value
+// that verify() refuses (<= 0) has, by the known C18 defect, already been delivered when
+// the update is refused - this harness shows what it does to the janitor.
+func HarnessIntervalChange() {
+	resetMetrics()
+	vSetSysMem(1 << 40)
+	cfg := newCfg(1 << 30)
+	c := NewMemoryCache[vmeta](cfg, 100, 1<<30, time.Hour, 2, context.Background())
+	vAssert(vPendingCount() == 1, "c13.janitor-goroutine-not-started") // the janitor loop, not yet run
+	d := time.Duration(symInt64())
+	cfg.Cache.CleanupInterval.Stage(duration.Duration(d)) // what an API update does first
+	vAssert(vPendingCount() == 2, "c19.listener-not-notified")
+	vRunPendingAt(1) // the listener goroutine: hands the new interval to the janitor
+	died := vPanics(func() { vRunPendingAt(0) }) // the janitor loop: picks it up, resets its ticker, waits again
+	if d > 0 {
+		vReach("positive-interval")
+		vAssert(!died, "c13.interval-change-kills-janitor")
+		vAssert(vTickerInterval() == d && c.janitor.interval == d, "c13.interval-change-not-followed")
+	} else {
+		vReach("refused-interval")
+		vAssert(!died, "c18.refused-interval-reaches-the-janitor-and-kills-it")
+	}
 }
